@@ -87,6 +87,12 @@ def generate(rng, tier):
     if rng.random() < 0.04:
         # a configuration with a long life: hundreds of descriptions arrive over time
         usr = [f"USR.N{i}" for i in range(rng.choice([40, 70, 130, 260]))]
+    deep = rng.random() < 0.05
+    if deep:
+        # one long reference chain (12-40 links) whose names sort in an order of their own: whichever link a
+        # registration looks at first, the whole chain has to resolve, in one batch or over several
+        names = [f"CH.L{i:02}" for i in range(rng.choice([12, 17, 25, 40]))]
+        usr = usr[:2] + names
     real_used = rng.sample(sorted(REAL), rng.randint(1, 7 if big else 4))
     comps = []
     syn_ids = []
@@ -121,8 +127,15 @@ def generate(rng, tier):
     order = list(colorgen.BUILTIN_IDS) + later
     pos = {sid: i for i, sid in enumerate(order)}
     dash_ok = True
+    chain_prev = {}
+    if deep:
+        links = sorted((x for x in order if x.startswith("CH.L")), key=pos.get)
+        chain_prev = dict(zip(links[1:], links))
 
     def descr_for(sid):
+        if sid in chain_prev:
+            d = colorgen.gen_descr(rng, [chain_prev[sid]], dash_ok)
+            return d if d.split(":")[0] == chain_prev[sid] else chain_prev[sid]
         before = order[: pos[sid]]
         parents = list(before)
         if rng.random() < 0.25:
@@ -182,8 +195,14 @@ def generate(rng, tier):
     # delivery schedule
     deliveries = [{"op": "use", "comp": c["name"], "no_color": rng.random() < 0.15} for c in comps]
     deliveries += [{"op": "use", "comp": n, "no_color": rng.random() < 0.15} for n in real_used]
+    if deep:
+        never = [sid for sid in never if not sid.startswith("CH.L")]
     todo = [sid for sid in usr if sid not in never]
     rng.shuffle(todo)
+    if deep and rng.random() < 0.6:
+        # the whole chain arrives together
+        deliveries.append({"op": "batch", "items": {sid: usr_descr[sid] for sid in todo if sid.startswith("CH.L")}})
+        todo = [sid for sid in todo if not sid.startswith("CH.L")]
     while todo:
         k = rng.randint(1, len(todo))
         batch, todo = todo[:k], todo[k:]
